@@ -232,6 +232,10 @@ class Gen:
         body = init + [self.stmt(2, scope) for _ in range(r.randrange(0, 3))]
         if ret != "none":
             body.append(("return", self.expr(ret, 2, scope)))
+        elif r.random() < 0.25:
+            # the routine ends in an If / ElseIf chain without a final Else whose branches all return: control can still fall off the end
+            mk = lambda: ("seq", [self.stmt(1, scope), ("return", None)]) if r.random() < 0.5 else ("return", None)
+            body.append(("ifs", self.expr("u", 1, scope), mk(), ("ifs", self.expr("u", 1, scope), mk(), None)))
         elif r.random() < 0.3:
             body.append(("return", None))
         sub.body = ("seq", body)
